@@ -50,13 +50,61 @@ func v06eRec(zctx *zed.Context, null bool, x byte) zed.Value {
 // verif:desc C06-O7 the sort OPERATOR executed end to end (sort.Op.Pull/run/send/sendResult/setComparator under cooperative goroutines): an operator instance that is restarted across end-of-stream cycles (as inside `over ... => (sort ...)`) sorts EVERY stream the same way: each stream's output is a permutation of its input, non-decreasing under the requested order (desc / -r / nulls first applied identically to the first and to the later streams), equal keys in input order.
 // verif:bounds 2 streams of 2 values each, in one or two batches; first stream the concrete keys 2,1; later stream: key int64 with a non-zero one-byte body (-127..127 and MinInt64 in the counted-varint encoding) or null; order asc/desc, Reverse and NullsFirst symbolic (Choose); in memory (MemMaxBytes default)
 // verif:outside spilled sorts (C06-O6 covers the merge of spilled runs), guessed sort keys, more than two streams; one deterministic goroutine schedule
-func VerifH_C06_O7_sort_op_streams() {
-	verif.Goroutines(true)
+func VerifH_C06_O7_sort_op_streams() { v06eSortOp(0) }
+
+// verif:desc C06-O7s the sort operator restarted across end-of-stream cycles, same run and same assertions as VerifH_C06_O7_sort_op_streams, under EVERY goroutine schedule with at most 2 preemptions (thorough tier: 3) at the channel operations, selects, closes, lock/once/WaitGroup operations and the goroutine start of the real Op.Pull/run/sendResult code, with a bounded free choice of which runnable goroutine continues: each stream's output (permutation of its input, sorted as requested with the same rule for the first and the later stream, stable) does not depend on how the operator's goroutine and the consumer interleave
+// verif:bounds 2 streams of 2 values each, each in one batch or in one batch per value (Choose); first stream the concrete keys 2,1; later stream concrete: the keys 3,1 / null,5 / the equal keys 4,4 (Choose); order asc/desc, NullsFirst, Reverse: all 8 combinations; preemption bound 2 (thorough: 3) - two goroutines only (the operator's and the consumer)
+// verif:outside as VerifH_C06_O7_sort_op_streams except that schedules are explored up to the bound; symbolic keys (VerifH_C06_O7_sort_op_streams); field loads/stores are not preemption points (data-race freedom between sync points is assumed)
+func VerifH_C06_O7s_sort_op_schedules() {
+	// (two goroutines only - the operator's and the consumer - so a schedule
+	// has few decisions: the bounds are one higher than for the fan-in operators)
+	if verif.Thorough() {
+		v06eSortOp(3)
+	} else {
+		v06eSortOp(2)
+	}
+}
+
+// v06eSched: concrete second streams for the schedule variant {null, body byte}
+var v06eSched = [][2][2]byte{
+	{{0, 6}, {0, 2}},  // 3, 1
+	{{1, 0}, {0, 10}}, // null, 5
+	{{0, 8}, {0, 8}},  // 4, 4
+}
+
+// (desc, nullsFirst, reverse) of the schedule variant
+var v06eSchedCfg = [][3]bool{
+	{false, false, false}, {true, true, false}, {false, false, true}, {true, false, true},
+	{true, false, false}, {false, true, false}, {false, true, true}, {true, true, true},
+}
+
+func v06eSortOp(sched int) {
+	var desc, reverse, nullsFirst bool
+	data := 0
+	if sched > 0 {
+		// schedules are the quantifier: concrete keys, fewer configurations
+		verif.Schedules(sched)
+		c := v06eSchedCfg[verif.Choose("cfg", len(v06eSchedCfg))]
+		desc, nullsFirst, reverse = c[0], c[1], c[2]
+		data = verif.Choose("data", len(v06eSched))
+	} else {
+		verif.Goroutines(true)
+		desc = verif.Choose("desc", 2) == 1
+		reverse = verif.Choose("reverse", 2) == 1
+		nullsFirst = verif.Choose("nullsfirst", 2) == 1
+	}
 	zctx := zed.NewContext()
-	desc := verif.Choose("desc", 2) == 1
-	reverse := verif.Choose("reverse", 2) == 1
-	nullsFirst := verif.Choose("nullsfirst", 2) == 1
+	nmk := 0
 	mk := func(name string) (zed.Value, bool, int64) {
+		if sched > 0 {
+			c := v06eSched[data][nmk]
+			nmk++
+			null, x := c[0] == 1, c[1]
+			if null {
+				x = 2
+			}
+			return v06eRec(zctx, null, x), null, zed.DecodeInt(zcode.Bytes{x})
+		}
 		null := verif.Bool(name + ".null")
 		x := verif.Byte(name)
 		verif.Assume(x != 0)
